@@ -154,6 +154,11 @@ def OPS(E):
             r.c('async_opt 0 max_request_count 100')
         return f
 
+    def with_sig_nocache(r):
+        r.c('ctx 0')
+        r.c('opt 0 hash_cache 0')
+        r.c('sigparse 0 0 empty ' + E.sig_hex)
+
     def with_pki(r):
         r.c('ctx 0')
         r.c('truststore 0 ' + E.ca.pem)
@@ -210,6 +215,9 @@ def OPS(E):
         # plain tree builder (7 and 11 leaves: the close has sub-trees to join); every failing call is repeated once on the same builder: the tree must be the fault-free one
         'treebuild_retry_7': (base, one('treebuild 0 7 3', ('rc', 'root', 'rootlevel', 'leaves', 'completed', 'handle_on_error'))),
         'treebuild_retry_11': (base, one('treebuild 0 11 4', ('rc', 'root', 'rootlevel', 'leaves', 'completed', 'handle_on_error'))),
+        # one chain object aggregated from two different start levels; a failing call is repeated on the same object
+        'chain_aggregate_two_levels': (with_sig, one('chainagg 0 0 0 3', ('rc', 'a', 'alevel', 'b', 'blevel', 'completed'))),
+        'chain_aggregate_two_levels_nocache': (with_sig_nocache, one('chainagg 0 0 2 0', ('rc', 'a', 'alevel', 'b', 'blevel', 'completed'))),
         'blocksign_continue': (with_net, one('blocksign 0 6 1 1 9 cont=1', ('rc', 'nsig', 'badsig', 'failed_calls', 'handle_on_error', 'completed'))),
         'blocksign_continue_plain': (with_net, one('blocksign 0 7 0 0 5 cont=1', ('rc', 'nsig', 'badsig', 'failed_calls', 'handle_on_error', 'completed'))),
     }
@@ -305,6 +313,12 @@ def worker(job, r):
                         tag, N, (troot or '')[:16], tlvl, tleaves, tuple(x[:16] if isinstance(x, str) else x for x in ref[0][2:5])), 'op=%s failat=%s' % (name, tag))
                 elif tdone == '1':
                     r.count('treebuilder_repeated_ok')
+            if name.startswith('chain_aggregate_two_levels') and failed and res and isinstance(res[0], tuple) and len(fs) == 1 and res[0][6] == '1':
+                if tuple(res[0][2:6]) != tuple(ref[0][2:6]):
+                    r.viol('not-repeatable:chain-aggregate', 'allocation %s of %d failed; the failing KSI_AggregationHashChain_aggregate was repeated on the same chain object and gives %s, fault-free %s' % (
+                        tag, N, tuple((x or '')[:18] for x in res[0][2:6]), tuple((x or '')[:18] for x in ref[0][2:6])), 'op=%s failat=%s' % (name, tag))
+                else:
+                    r.count('chain_aggregate_repeated_ok')
             if name == 'builder_close_retry' and failed and res and isinstance(res[0], tuple) and res[0][1] not in ('0', None) and res[0][4] is None and len(fs) == 1:
                 _, brc, bsig, retry, _st = res[0]
                 if retry != '0' or bsig != ref[0][2]:
